@@ -274,6 +274,9 @@ def check_branches(chk, it, tabs):
                    'wasmCWriteBranchTableExpr:value')
 
 
+CARRY_RULE = ['R03.2']
+
+
 def check_branch_family(chk, it, tabs, tier='quick'):
     """R03.2/R03.4 over a family: branch instruction x nesting depth x number of extra operands below the value x result type"""
     L = tabs['letter']
@@ -281,8 +284,17 @@ def check_branch_family(chk, it, tabs, tier='quick'):
     for t_ in ('i32', 'i64', 'f32', 'f64'):
         for depth in ((0, 1, 2) if tier == 'quick' else (0, 1, 2, 3, 5)):
             for extras in ((0, 1, 2) if tier == 'quick' else (0, 1, 2, 3, 6)):
-                for kind in ('br', 'br_if', 'br_table', 'return'):
-                    items = [('block', {'imm0': V[t_]})] + [('block', {'imm0': oracle.BLOCKTYPE_VOID})] * depth
+                for kind, target in [(k_, 'block') for k_ in ('br', 'br_if', 'br_table', 'return')] + \
+                        [(k_, tg_) for tg_ in ('if-then', 'if-else') for k_ in ('br', 'br_if', 'br_table')]:
+                    # the target label belongs to a block, or to an if (branch from its then arm / its else arm): an if label is entered
+                    # after the condition has been popped, its result slot is the slot the condition was in
+                    if target == 'block':
+                        items = [('block', {'imm0': V[t_]})]
+                    elif target == 'if-then':
+                        items = [const('i32', 1), ('if', {'imm0': V[t_]})]
+                    else:
+                        items = [const('i32', 1), ('if', {'imm0': V[t_]}), const(t_, 8), 'else']
+                    items += [('block', {'imm0': oracle.BLOCKTYPE_VOID})] * depth
                     items += [const('i64', 5)] * extras + [const(t_, 3)]
                     if kind == 'br':
                         items.append(('br', {'imm0': depth}))
@@ -298,6 +310,8 @@ def check_branch_family(chk, it, tabs, tier='quick'):
                     items += ['end'] * depth
                     if kind == 'br_if' or depth > 0:
                         items.append(const(t_, 9))
+                    if target == 'if-then':
+                        items += ['else', const(t_, 7)]
                     items.append('end')
                     labels = [(0, 0, t_)] if kind == 'return' else None
                     stack = [] if kind == 'return' else ['i64']
@@ -319,15 +333,16 @@ def check_branch_family(chk, it, tabs, tier='quick'):
                     lt = L[t_]
                     copies = re.findall(r's%s(\d+)=s%s(\d+);goto%s;' % (lt, lt, tgt_label), flat)
                     plain = len(re.findall(r'goto%s;' % tgt_label, flat))
-                    label = '%s[%s,depth=%d,extras=%d]' % (kind, t_, depth, extras)
+                    label = '%s[%s,depth=%d,extras=%d%s]' % (kind, t_, depth, extras, '' if target == 'block' else ',' + target)
                     if extras == 0:
                         ok = plain >= 1 and all(a == b for a, b in copies)
                     else:
                         ok = plain >= 1 and len(copies) == plain and all(int(a) == base and int(b) == src for a, b in copies)
-                    chk.expect(ok, 'R03.2', 'carry:' + label,
-                               '%s out of %d nested block(s) with %d extra operand(s) below a %s value: every jump to %s must be preceded by '
-                               's%s%d=s%s%d (value slot -> result slot of the target)%s; emitted %r'
-                               % (kind, depth, extras, t_, tgt_label, lt, base, lt, src, ' or nothing when they coincide' if not extras else '', tpl.text()),
+                    chk.expect(ok, CARRY_RULE[0], 'carry:' + label,
+                               ('%s%s out of %d nested block(s) with %d extra operand(s) below a %s value: every jump to %s must be preceded by '
+                                's%s%d=s%s%d (value slot -> result slot of the target)%s; emitted %r')
+                               % (kind, (' to the label of an if (from its %s arm)' % target[3:]) if target != 'block' else '', depth, extras, t_,
+                                  tgt_label, lt, base, lt, src, ' or nothing when they coincide' if not extras else '', tpl.text()),
                                'branch-carry/' + kind)
     return n
 
